@@ -317,7 +317,8 @@ func (c *Ctx) replayOnce(cd *Candidate, module, cfg string) (bool, []string, err
 	if len(cd.Group) > 0 {
 		run = cd.Group
 	}
-	trace, err := c.Execute("replay-"+hashOf([]byte(cd.Case.Header().ID)), run, false)
+	race := cd.Case.Header().Family == "conc" && os.Getenv("VERIF_RACE_BIN") != ""
+	trace, err := c.Execute("replay-"+hashOf([]byte(cd.Case.Header().ID)), run, race)
 	if err != nil {
 		return false, nil, err
 	}
